@@ -213,6 +213,29 @@ PROPS["C17"] = dict(
                 "__getitem__, multi_items; bounded: __setitem__, mixin mutators, QueryParams/FormData, query round trip.",
 )
 
+PROPS["C14"] = dict(
+    modules=["common", "hdrs", "c03", "c02", "c14"],
+    contracts=["if_none_match", "if_modified_since", "wsgi.Files.file_response", "asgi.Files.file_response"],
+    refute={"quick": [2], "thorough": [1, 2, 3]},
+    native="c14",
+    level="other",
+    trusted=["A-py-1", "A-solver", "A-pyvc"],
+    level_text="Mixed. PROVED: if_none_match(etag, h) is true exactly when h is '*' or some comma-separated member, after removing "
+               "blanks, a weak prefix and quotes, equals the ETag (for any number of members); if_modified_since is true exactly "
+               "when the date parses and floor(change time) <= floor(parsed time); both file_response functions answer 304 "
+               "exactly when the ETag validator (if present, else the date validator) matches the CURRENT stat result - they "
+               "read no other state, so the answer depends only on the current file state and the presented validators - "
+               "and attach the cache headers on both outcomes. BOUNDED (labelled): the history clauses (no stale 304 after a "
+               "detectable modification, a fresh copy always revalidates in every validator form, '*' matches) are checked "
+               "on real files with a virtualised clock over all single and double modification histories.",
+    level_note="Trusted: ETag = uninterpreted function of (mtime, size) (A-sha-1); parsedate_to_datetime raises ValueError or "
+               "returns a date (A-date-parse); int(float) is floor (A-float-floor); str.split(',') pieces (A-split); strip "
+               "(A-lower). Known finding (open): a size change within the same second is not seen through a Last-Modified-only "
+               "validator (one-second granularity of the date validator).",
+    technique="deductive verification: exact functional contracts of the validator predicates and of the 304 decision, SMT; bounded history run on a virtual file clock",
+    explanation="proved: validator predicates and the 304 decision of both interfaces; bounded: history clauses on a virtual clock.",
+)
+
 NOT_APPLICABLE = {
     "C06": "quantifies over schedules/interleavings (relay thread vs consumer vs closer, asyncio tasks vs ping timer) and is a "
            "bounded-liveness claim; contracts over a sequential, await-erased semantics cannot express an interleaving and "
